@@ -172,7 +172,13 @@ func (c *Ctx) useSiteConstants() map[string]string {
 		{"newWithChunkMode", 2},
 		{"mergeSegmentBasesWriter", 3},
 	}
-	counts := map[string]int{}
+	multi := map[string][]string{}
+	defer func() {
+		for k, vs := range multi {
+			sort.Strings(vs)
+			out[k] = strings.Join(vs, " ")
+		}
+	}()
 	for _, f := range c.Root.Syntax {
 		var encl string
 		ast.Inspect(f, func(n ast.Node) bool {
@@ -203,15 +209,14 @@ func (c *Ctx) useSiteConstants() map[string]string {
 				if fn.Name() != w.callee || w.arg >= len(call.Args) {
 					continue
 				}
-				k := fmt.Sprintf("%s: %s(arg %d)", encl, w.callee, w.arg)
-				counts[k]++
-				if counts[k] > 1 {
-					k = fmt.Sprintf("%s#%d", k, counts[k])
-				}
+				// keyed by callee and argument only: the multiset of values over all
+				// call sites, so that moving a call into a helper is not a change
+				k := fmt.Sprintf("call %s(arg %d)", w.callee, w.arg)
+				_ = encl
 				if v, ok := foldedArg(c.Info, call.Args[w.arg]); ok {
-					out[k] = v
+					multi[k] = append(multi[k], v)
 				} else {
-					out[k] = "non-constant"
+					multi[k] = append(multi[k], "non-constant")
 				}
 			}
 			return true
